@@ -17,10 +17,15 @@ type Lit struct {
 	// Early is true when the literal comes from an earlier `if c { ...terminates }` rather
 	// than from an enclosing branch.
 	Early bool
+	// NonEmpty: the literal states len(E) > 0 (body of `range E`).
+	NonEmpty bool
 }
 
 func (l Lit) String() string {
 	s := types.ExprString(l.E)
+	if l.NonEmpty {
+		return "nonempty(" + s + ")"
+	}
 	if l.Tag != nil {
 		if l.Pos {
 			return types.ExprString(l.Tag) + " == " + s
@@ -182,7 +187,7 @@ func (w *gwalk) stmt(s ast.Stmt, g []Lit, loops []ast.Stmt) []Lit {
 		return w.stmt(x.Stmt, g, loops)
 	case *ast.RangeStmt:
 		w.visit(x, g, loops)
-		w.block(x.Body.List, g, append(append([]ast.Stmt{}, loops...), x))
+		w.block(x.Body.List, cp(g, Lit{E: x.X, Pos: true, NonEmpty: true}), append(append([]ast.Stmt{}, loops...), x))
 		return g
 	case *ast.ForStmt:
 		if x.Init != nil {
